@@ -1082,11 +1082,16 @@ def record_fields(fn, assume):
             e = v.args[0].elt
             if X and isinstance(g.target, ast.Name) and isinstance(e, ast.Tuple) and len(e.elts) == 2 and is_copy_pair(e.elts[0], e.elts[1], g.target.id, X) and not g.ifs:
                 return {"__base__": X}
+            if X and isinstance(g.target, ast.Name) and isinstance(e, ast.Tuple) and len(e.elts) == 2 and is_copy_pair(e.elts[0], e.elts[1], g.target.id, X) and len(g.ifs) == 1 \
+                    and _txt(g.ifs[0]) == f"{X}.is_public_field({g.target.id}.name)":
+                return {"__base__": X, "__public_only__": True}  # the fields whose names do not start with an underscore
         if isinstance(v, ast.DictComp) and len(v.generators) == 1:
             g = v.generators[0]
             X = fields_of(g.iter)
             if X and isinstance(g.target, ast.Name) and is_copy_pair(v.key, v.value, g.target.id, X) and not g.ifs:
                 return {"__base__": X}
+            if X and isinstance(g.target, ast.Name) and is_copy_pair(v.key, v.value, g.target.id, X) and len(g.ifs) == 1 and _txt(g.ifs[0]) == f"{X}.is_public_field({g.target.id}.name)":
+                return {"__base__": X, "__public_only__": True}
         if isinstance(v, ast.Dict) and all(isinstance(k, ast.Constant) for k in v.keys):
             return {k.value: _txt(x) for k, x in zip(v.keys, v.values)}
         if isinstance(v, ast.Call) and isinstance(v.func, ast.Name) and v.func.id == "dict" and not v.args:
@@ -1136,6 +1141,17 @@ def record_fields(fn, assume):
                         if src is not None:
                             objs[tgt.id] = dict(src)
                             objs[tgt.id]["__class__"] = _txt(v.func)
+                            continue
+                    if isinstance(v, ast.Call) and not v.args and v.keywords and v.keywords[0].arg is None and all(k_.arg is not None for k_ in v.keywords[1:]):
+                        # Cls(**copied, k=v, ..): the copied fields, then the ones given by name
+                        kv = v.keywords[0].value
+                        src = dicts.get(kv.id) if isinstance(kv, ast.Name) else dict_value(kv)
+                        if src is not None:
+                            objs[tgt.id] = dict(src)
+                            objs[tgt.id]["__class__"] = _txt(v.func)
+                            for k_ in v.keywords[1:]:
+                                objs[tgt.id][k_.arg] = _txt(k_.value)
+                                order.append(k_.arg)
                             continue
                     continue  # some other local
                 if isinstance(tgt, ast.Subscript) and isinstance(tgt.value, ast.Name) and tgt.value.id in dicts and isinstance(tgt.slice, ast.Constant):
@@ -1189,6 +1205,7 @@ def record_fields(fn, assume):
             if isinstance(st, ast.Return):
                 if isinstance(st.value, ast.Name) and st.value.id in objs:
                     dicts["<return>"] = objs[st.value.id]
+                    dicts["<return>"]["__var__"] = st.value.id
                     return True
                 return False
             return False
